@@ -101,6 +101,11 @@ pub mod verif {
         query::VerifQueryState,
         verif_glue::{VerifKadDump, VerifKademlia, VerifProbe, VerifProbeEntry, VerifTableNode},
     };
+    /// C17: the store's clock override, full store snapshots and the refresh log of the loop.
+    pub use super::{
+        store::{verif_clock as store_clock, MemoryStoreAction, VerifProviderRecord},
+        verif_glue::{VerifRefresh, VerifStoreDump},
+    };
 }
 
 #[cfg(feature = "verif")]
@@ -1451,6 +1456,9 @@ impl Kademlia {
                             ?provided_key,
                             "republishing local provider",
                         );
+
+                        #[cfg(feature = "verif")]
+                        self.verif_note_refresh(&provided_key, &provider, quorum);
 
                         self.store.put_local_provider(provided_key.clone(), quorum);
 
